@@ -672,12 +672,19 @@ start:
 	}
 
 	processPhis := func(b *ir.BasicBlock, i int, s state) state {
+		// The phis of a block are evaluated in parallel: an incoming value may
+		// itself be a phi of this block (a, b = b, a in a loop), and must be
+		// read before any of them is updated.
+		var incoming []ValueNilness
 		for _, instr := range b.Instrs {
 			if instr, ok := instr.(*ir.Phi); ok {
-				s.set(instr, s.get(instr.Edges[i]))
+				incoming = append(incoming, s.get(instr.Edges[i]))
 			} else {
 				break
 			}
+		}
+		for j, v := range incoming {
+			s.set(b.Instrs[j].(*ir.Phi), v)
 		}
 		return s
 	}
